@@ -14,6 +14,10 @@ import (
 const (
 	maxK = sorted.MaxKeySize
 	maxV = sorted.MaxValueSize
+	// giantK is the length of the one key per universe that is far over the limit (larger than
+	// the 64 KiB-class native limits of the libraries below: a Set must skip it, Get/Delete/Find
+	// must treat it like any other absent key or bound).
+	giantK = 70000
 )
 
 // ukey is one key of a history's universe.
@@ -24,7 +28,7 @@ type ukey struct {
 }
 
 func keyClassNames() []string {
-	return []string{"len-1", fmt.Sprintf("len-%d", maxK-1), fmt.Sprintf("len-%d", maxK), fmt.Sprintf("len-%d", maxK+1),
+	return []string{"len-1", fmt.Sprintf("len-%d", maxK-1), fmt.Sprintf("len-%d", maxK), fmt.Sprintf("len-%d", maxK+1), fmt.Sprintf("len-%d", giantK),
 		"pipe", "colon", "percent", "space", "tilde", "utf8-multibyte", "raw-high-byte", "prefix-of-other"}
 }
 
@@ -35,7 +39,7 @@ func valueClassNames() []string {
 func sizeLimitClassNames() []string {
 	var out []string
 	for _, ctx := range []string{"set", "batch"} {
-		out = append(out, ctx+"/key=max-stored", ctx+"/key>max-skipped", ctx+"/value=max-stored", ctx+"/value>max-skipped")
+		out = append(out, ctx+"/key=max-stored", ctx+"/key>max-skipped", ctx+"/key>>max-skipped", ctx+"/value=max-stored", ctx+"/value>max-skipped")
 	}
 	return out
 }
@@ -43,7 +47,7 @@ func sizeLimitClassNames() []string {
 func contentClasses(k string) []string {
 	var out []string
 	switch len(k) {
-	case 1, maxK - 1, maxK, maxK + 1:
+	case 1, maxK - 1, maxK, maxK + 1, giantK:
 		out = append(out, fmt.Sprintf("len-%d", len(k)))
 	}
 	for _, c := range []struct {
@@ -129,6 +133,8 @@ func buildUniverse(rng *rand.Rand) []ukey {
 	for _, l := range []int{maxK - 1, maxK, maxK + 1} {
 		add(chain[:l], fmt.Sprintf("pad(head=%q,fill=%q)[:%d]", head, fill, l))
 	}
+	// one key far over the limit; the chain above is a prefix of it
+	add(padTo(head, fill, giantK), fmt.Sprintf("pad(head=%q,fill=%q)[:%d]", head, fill, giantK))
 	// further long keys that differ in the last byte
 	head2, fill2 := longHeads[rng.Intn(len(longHeads))], longFills[rng.Intn(len(longFills))]
 	for _, l := range []int{maxK - 1, maxK, maxK + 1} {
